@@ -198,7 +198,10 @@ Record call := {
   c_strict : bool;                (* strict_type_enforcement *)
   c_api : option cols;            (* api_data given: its shape (None, or empty: no ApiInputDataCollection) *)
   c_links : bool;                 (* links = the world's set object (true) or None (false) *)
-  c_filter : bool                 (* global_filter = the world's GlobalFilter (true) or None *)
+  c_filter : bool;                (* global_filter = the world's GlobalFilter (true) or None *)
+  c_hz : nat                      (* NOT an argument: Python set iteration order during this call, as far as it matters --
+                                     how many of the hazardous look-ups (seek, below) pass before one raises; theorems
+                                     quantify over it, the correspondence tries several values *)
 }.
 
 (* a feature as stored in Engine.feature_group_collection: group, name, options (group / context), link, data type,
@@ -384,28 +387,57 @@ Fixpoint identity_matched (vr : variant) (u : universe) (gid gdom : nat) (fdom :
    (GlobalFilter.filters); and -- because the recursion only ever ADDS to Engine.links (self.links.add) and to
    GlobalFilter.collection (add_filter_to_collection) and never reads them (groups without index_columns) -- the
    sequences of those add calls, applied to the two objects afterwards *)
-Record rst := { r_stored : list pfeat; r_ladds : list link; r_fadds : list (key * flt); r_flts : list flt }.
+Record rst := { r_stored : list pfeat; r_ladds : list link; r_fadds : list (key * flt); r_flts : list flt;
+                r_hz : nat (* remaining hazardous look-ups that pass (c_hz) *) }.
+
+(* add_feature_to_collection for a feature p of which an EQUAL one is already stored: for a requested feature
+   (initial_requested_data) and inside the recursion (child_uuid set) the group's collection -- a set -- is searched with
+   Feature.__eq__ for the stored equal.  Feature.__eq__ compares name, options, context and then the domains, and
+   Domain.__eq__ RAISES when one of the two is None: if the set holds a feature with p's name, options and context of
+   which exactly one has a domain, and the iteration meets it before the equal one, the call ends with ValueError
+   "Cannot compare Domain with <class 'NoneType'>".  Which comes first is set iteration order: parameter r_hz. *)
+Definition dom_clash (p q : pfeat) : bool :=
+  Nat.eqb (pf_gid p) (pf_gid q) && String.eqb (pf_name p) (pf_name q) && opts_eqb (pf_g p) (pf_g q)
+  && opts_eqb (pf_c p) (pf_c q)
+  && match pf_dom p, pf_dom q with None, Some _ | Some _, None => true | _, _ => false end.
+Definition seek (p : pfeat) (st : rst) : perr + rst :=
+  if existsb (dom_clash p) (r_stored st) then
+    match r_hz st with
+    | 0 => inl EDomCmp
+    | S k => inr {| r_stored := r_stored st; r_ladds := r_ladds st; r_fadds := r_fadds st; r_flts := r_flts st; r_hz := k |}
+    end
+  else inr st.
 Definition apply_links (L : list link) (log : list link) : list link := fold_left link_add log L.
 Definition apply_coll (C : fcoll) (log : list (key * flt)) : fcoll :=
   fold_left (fun c kx => coll_add c (fst kx) (snd kx)) log C.
 
 (* recording the matches: every matched filter is recorded under (group, feature.name) and its filter feature is stored
-   (add_feature_to_collection: only if no equal feature is stored yet) *)
-Definition record_matches (gid : nat) (n : string) (ms : list flt) (st : rst) : rst :=
-  fold_left (fun st x =>
-    let ff := {| pf_gid := gid; pf_name := ft_name x; pf_g := ft_opts x; pf_c := []; pf_link := None;
-                 pf_dtype := None; pf_child := None; pf_dom := ft_dom x |} in
-    {| r_stored := if stored_in ff (r_stored st) then r_stored st else r_stored st ++ [ff];
-       r_ladds := r_ladds st; r_fadds := r_fadds st ++ [((gid, n), x)]; r_flts := r_flts st |})
-    ms st.
+   (add_feature_to_collection(group, match.filter_feature, features.child_uuid): only if no equal feature is stored yet;
+   if one is and we are inside the recursion (inrec: child_uuid set), the stored equal is looked up: seek) *)
+Definition record_one (gid : nat) (n : string) (inrec : bool) (st : rst) (x : flt) : perr + rst :=
+  let ff := {| pf_gid := gid; pf_name := ft_name x; pf_g := ft_opts x; pf_c := []; pf_link := None;
+               pf_dtype := None; pf_child := None; pf_dom := ft_dom x |} in
+  let st1 := {| r_stored := r_stored st; r_ladds := r_ladds st; r_fadds := r_fadds st ++ [((gid, n), x)];
+                r_flts := r_flts st; r_hz := r_hz st |} in
+  if stored_in ff (r_stored st) then (if inrec then seek ff st1 else inr st1)
+  else inr {| r_stored := r_stored st ++ [ff]; r_ladds := r_ladds st; r_fadds := r_fadds st ++ [((gid, n), x)];
+              r_flts := r_flts st; r_hz := r_hz st |}.
+Fixpoint record_matches (gid : nat) (n : string) (inrec : bool) (ms : list flt) (st : rst) : perr + rst :=
+  match ms with
+  | [] => inr st
+  | x :: t => match record_one gid n inrec st x with
+              | inl e => inl e
+              | inr st' => record_matches gid n inrec t st'
+              end
+  end.
 (* _add_filter_feature(group, feature) *)
 Definition add_filter_feature (vr : variant) (u : universe) (st : rst) (gi : ginfo) (n : string) (fdom : option nat)
-                              (fcfw : option (list nat)) (g c : opts) : perr + rst :=
+                              (fcfw : option (list nat)) (g c : opts) (inrec : bool) : perr + rst :=
   match identity_matched vr u (gi_id gi) (gi_dom gi) fdom fcfw g c (r_flts st) with
   | inl e => inl e
   | inr (fl', ms) =>
-    inr (record_matches (gi_id gi) n ms
-           {| r_stored := r_stored st; r_ladds := r_ladds st; r_fadds := r_fadds st; r_flts := fl' |})
+    record_matches (gi_id gi) n inrec ms
+      {| r_stored := r_stored st; r_ladds := r_ladds st; r_fadds := r_fadds st; r_flts := fl'; r_hz := r_hz st |}
   end.
 
 (* Features.build_feature_collection: an input feature without own domain inherits the parent FEATURE's domain *)
@@ -434,7 +466,7 @@ Fixpoint proc (vr : variant) (u : universe) (use_filter : bool) (fuel : nat) (st
       let p := {| pf_gid := gi_id gi; pf_name := n; pf_g := g; pf_c := c; pf_link := l; pf_dtype := dt; pf_child := child;
                   pf_dom := dom |} in
       let st1 :=
-        if stored_in p (r_stored st) then inr st
+        if stored_in p (r_stored st) then seek p st        (* requested (flag set) or inside the recursion: look-up *)
         else fold_left (fun acc il => match acc with
                                       | inl e => inl e
                                       | inr s => proc vr u use_filter k s (i_name il) (eff_dom il dom) None g [] (i_link il)
@@ -443,10 +475,12 @@ Fixpoint proc (vr : variant) (u : universe) (use_filter : bool) (fuel : nat) (st
                        (gi_inputs gi)
                        (inr {| r_stored := r_stored st ++ [p];
                                r_ladds := match l with Some x => r_ladds st ++ [x] | None => r_ladds st end;
-                               r_fadds := r_fadds st; r_flts := r_flts st |}) in
+                               r_fadds := r_fadds st; r_flts := r_flts st; r_hz := r_hz st |}) in
       match st1 with
       | inl e => inl e
-      | inr s1 => if use_filter then add_filter_feature vr u s1 gi n dom (feat_cfw rcf gi) g c else inr s1
+      | inr s1 => if use_filter
+                  then add_filter_feature vr u s1 gi n dom (feat_cfw rcf gi) g c (match child with Some _ => true | None => false end)
+                  else inr s1
       end
     end
   end.
@@ -542,7 +576,8 @@ Fixpoint phase2 (vr : variant) (u : universe) (fuel : nat) (use_filter : bool) (
 
 (* ---------------------------------------------------------------- mlodaAPI.prepare ---- *)
 (* the Engine's filter objects at the start: the content of the caller's (a deep copy, or the very objects) *)
-Definition rst0 (fl : list flt) : rst := {| r_stored := []; r_ladds := []; r_fadds := []; r_flts := fl |}.
+Definition rst0 (fl : list flt) (hz : nat) : rst :=
+  {| r_stored := []; r_ladds := []; r_fadds := []; r_flts := fl; r_hz := hz |}.
 
 (* the traversal of a call: a function of the universe, the filters and the (working) heap only *)
 Definition traverse_v (vr : variant) (u : universe) (fuel : nat) (w : world) (c : call)
@@ -552,7 +587,7 @@ Definition traverse_v (vr : variant) (u : universe) (fuel : nat) (w : world) (c 
   let addrs := if c_copy c then map (fun a => a + nF) (c_feats c) else c_feats c in
   match phase1 (c_api c) (c_strict c) h0 addrs with
   | (h1, Some e) => (h1, inl e)
-  | (h1, None) => (h1, inr (phase2 vr u fuel (c_filter c) {| p_heap := h1; p_r := rst0 (w_filters w) |} addrs))
+  | (h1, None) => (h1, inr (phase2 vr u fuel (c_filter c) {| p_heap := h1; p_r := rst0 (w_filters w) (c_hz c) |} addrs))
   end.
 
 Definition filter_outcome (use_filter : bool) (C : fcoll) (stored : list pfeat) (links : list link) : outcome :=
@@ -665,15 +700,24 @@ Definition out_matches (m : outcome) (o : oobs) : bool :=
 Definition obs_world (w : world) (b : cobs) : world :=
   {| hF := co_F b; hO := co_O b; w_links := co_links b; w_filters := co_filters b; w_coll := co_coll b |}.
 
+Definition with_hz (c : call) (k : nat) : call :=
+  {| c_feats := c_feats c; c_copy := c_copy c; c_strict := c_strict c; c_api := c_api c; c_links := c_links c;
+     c_filter := c_filter c; c_hz := k |}.
+(* the observed effect and outcome of one call are the model's for SOME set iteration order: no hazardous look-up raises
+   (100: more than a call of the generated size has), or the first / second / third / fourth one does *)
+Definition chk_one (u : universe) (fuel : nat) (w : world) (b : cobs) : bool :=
+  existsb (fun k =>
+    let (w', m) := plan_call u fuel w (with_hz (co_call b) k) in
+    list_eqb fobj_eqb (hF w') (co_F b) && list_eqb oobj_eqb (hO w') (co_O b)
+    && links_eqb (w_links w') (co_links b) && coll_eqb (w_coll w') (co_coll b)
+    && fset_eqb (w_filters w') (co_filters b)
+    && out_matches m (co_out b)) [100; 0; 1; 2; 3].
+
 Fixpoint chk_calls (u : universe) (fuel : nat) (w : world) (allcopy : bool) (h : list cobs) : bool :=
   match h with
   | [] => true
   | b :: t =>
-    let (w', m) := plan_call u fuel w (co_call b) in
-    list_eqb fobj_eqb (hF w') (co_F b) && list_eqb oobj_eqb (hO w') (co_O b)
-    && links_eqb (w_links w') (co_links b) && coll_eqb (w_coll w') (co_coll b)
-    && fset_eqb (w_filters w') (co_filters b)
-    && out_matches m (co_out b)
+    chk_one u fuel w b
     && (if allcopy then co_same b else true)
     && chk_calls u fuel (obs_world w b) (allcopy && c_copy (co_call b)) t
   end.
